@@ -82,17 +82,21 @@ inductive Bound where
 
 def usizeMax : Nat := 2 ^ 64 - 1
 
+/-- the start bound (`None` = `slice_start_index_overflow_fail`) -/
+def Bound.start? : Bound → Option Nat
+  | .incl s => some s
+  | .excl s => if s < usizeMax then some (s + 1) else none
+  | .unbounded => some 0
+
+/-- the end bound (`None` = `slice_end_index_overflow_fail`) -/
+def Bound.end? (len : Nat) : Bound → Option Nat
+  | .incl e => if e < usizeMax then some (e + 1) else none
+  | .excl e => some e
+  | .unbounded => some len
+
 /-- `slice::range(range, ..len)`: `none` = panic (index overflow, start > end, end > len) -/
 def sliceRange (sb eb : Bound) (len : Nat) : Option (Nat × Nat) :=
-  let start? : Option Nat := match sb with
-    | .incl s => some s
-    | .excl s => if s < usizeMax then some (s + 1) else none
-    | .unbounded => some 0
-  let end? : Option Nat := match eb with
-    | .incl e => if e < usizeMax then some (e + 1) else none
-    | .excl e => some e
-    | .unbounded => some len
-  match start?, end? with
+  match sb.start?, eb.end? len with
   | some s, some e => if s > e then none else if e > len then none else some (s, e)
   | _, _ => none
 
@@ -310,11 +314,12 @@ def extendFromWithin (fixed : Bool) (s : State) (sb eb : Bound) : Res Unit :=
 
 /-! ### split_off -/
 
-/-- THE switch for finding C09-a: `false` = /repo as it is (the `start == end` early return of
-    `BumpBox<str>::split_off` / `FixedBumpString::split_off` precedes the boundary assertions);
-    set to `true` when /repo gets the `fix:` commit that moves the assertions up.  The driver and
-    the correspondence use this value; Props/C09.lean proves the theorems for both values. -/
-def c09aFixed : Bool := false
+/-- THE switch for finding C09-a: `true` = /repo after the `fix:` commit 17be2d2 (both
+    `BumpBox<str>::split_off` and `FixedBumpString::split_off` assert the char boundaries BEFORE the
+    `start == end` early return); `false` = the behaviour before the fix (the early return preceded
+    the assertions, so an empty range inside a character returned "" instead of panicking).  The
+    driver and the correspondence use this value; Props/C09.lean proves the theorems for both values. -/
+def c09aFixed : Bool := true
 
 /-- `FixedBumpString::split_off` (fixed_bump_string.rs l.439; `BumpString::split_off` delegates to
     it) and `BumpBox<str>::split_off` (bump_box.rs l.~600; the same control flow with
